@@ -348,11 +348,11 @@ func vfC03Rows() []vfC03Row {
 				case RequestClientCert:
 					table = map[string]string{"none": "accept", "valid": "accept", "unknown-ca": "accept", "expired": "accept", "stolen-chain-own-key": "either", "omit-certificate-verify": "either", "victim-chain-forged-digestless-scheme": "either"}
 				case RequireAnyClientCert:
-					table = map[string]string{"none": "reject", "valid": "accept", "unknown-ca": "accept", "expired": "accept", "stolen-chain-own-key": "reject", "omit-certificate-verify": "reject", "omit-certificate": "reject", "victim-chain-forged-digestless-scheme": "reject"}
+					table = map[string]string{"none": "reject", "no-credential-certificate-message-omitted": "reject", "valid": "accept", "unknown-ca": "accept", "expired": "accept", "stolen-chain-own-key": "reject", "omit-certificate-verify": "reject", "omit-certificate": "reject", "victim-chain-forged-digestless-scheme": "reject"}
 				case VerifyClientCertIfGiven:
 					table = map[string]string{"none": "accept", "valid": "accept", "unknown-ca": "reject", "expired": "reject", "stolen-chain-own-key": "reject", "omit-certificate-verify": "reject", "own-selfsigned-leaf-plus-victim-cert": "reject", "own-selfsigned-ca-cert-plus-victim-cert": "reject", "victim-chain-forged-digestless-scheme": "reject", "expires-between-connections": "reject", "key-usage-of-the-other-role": "reject"}
 				case RequireAndVerifyClientCert:
-					table = map[string]string{"none": "reject", "valid": "accept", "unknown-ca": "reject", "expired": "reject", "stolen-chain-own-key": "reject", "omit-certificate-verify": "reject", "omit-certificate": "reject", "own-selfsigned-leaf-plus-victim-cert": "reject", "own-selfsigned-ca-cert-plus-victim-cert": "reject", "victim-chain-forged-digestless-scheme": "reject", "expires-between-connections": "reject", "key-usage-of-the-other-role": "reject"}
+					table = map[string]string{"none": "reject", "no-credential-certificate-message-omitted": "reject", "valid": "accept", "unknown-ca": "reject", "expired": "reject", "stolen-chain-own-key": "reject", "omit-certificate-verify": "reject", "omit-certificate": "reject", "own-selfsigned-leaf-plus-victim-cert": "reject", "own-selfsigned-ca-cert-plus-victim-cert": "reject", "victim-chain-forged-digestless-scheme": "reject", "expires-between-connections": "reject", "key-usage-of-the-other-role": "reject"}
 				}
 				for dev, e := range table {
 					ks := []string{"ecdsa"}
@@ -374,6 +374,9 @@ func vfC03Rows() []vfC03Row {
 			// way a Go map lookup does - and keys the handshake with the empty key
 			rows = append(rows, vfC03Row{Name: "psk/" + sn, Ver: "12", Rogue: "c", Dev: "unprovisioned-identity-empty-key", PSK: true, Expect: "reject", Variant: variant})
 			rows = append(rows, vfC03Row{Name: "psk/" + sn, Ver: "12", Rogue: "s", Dev: "unprovisioned-identity-empty-key", PSK: true, Expect: "reject", Variant: variant})
+			// ... or with an empty, non-nil slice ([]byte(table[id]) over a map of strings)
+			rows = append(rows, vfC03Row{Name: "psk/" + sn, Ver: "12", Rogue: "c", Dev: "unprovisioned-identity-empty-nonnil-key", PSK: true, Expect: "reject", Variant: variant})
+			rows = append(rows, vfC03Row{Name: "psk/" + sn, Ver: "12", Rogue: "s", Dev: "unprovisioned-identity-empty-nonnil-key", PSK: true, Expect: "reject", Variant: variant})
 		}
 	}
 	// An application callback that has no objection must not replace the library's own verdict: every row whose
@@ -436,9 +439,13 @@ func vfC03Run(t *testing.T, res *vfResult, row vfC03Row) {
 			}
 		}
 		cid, sid := "id", "hint"
-		if row.Dev == "unprovisioned-identity-empty-key" {
+		if strings.HasPrefix(row.Dev, "unprovisioned-identity-empty-") {
 			keys := map[string][]byte{"id": vfPSKKey, "hint": vfPSKKey}
 			lookup := func(h []byte) ([]byte, error) { return keys[string(h)], nil }
+			if row.Dev == "unprovisioned-identity-empty-nonnil-key" {
+				skeys := map[string]string{"id": string(vfPSKKey), "hint": string(vfPSKKey)}
+				lookup = func(h []byte) ([]byte, error) { return []byte(skeys[string(h)]), nil }
+			}
 			empty := func([]byte) ([]byte, error) { return []byte{}, nil }
 			if row.Rogue == "c" {
 				cpsk, spsk, cid = empty, lookup, "mallory"
@@ -491,6 +498,12 @@ func vfC03Run(t *testing.T, res *vfResult, row vfC03Row) {
 			switch row.Dev {
 			case "none":
 				haveClientCert = false
+			case "no-credential-certificate-message-omitted":
+				// a client without any certificate that does not even send the (empty) Certificate message: its
+				// last flight is the Finished alone
+				haveClientCert = false
+				script.Omit[handshake.TypeCertificate] = true
+				script.Omit[handshake.TypeCertificateVerify] = true
 			case "unknown-ca":
 				clientCert = pki.Leaf("ecdsa", "client-rogueca")
 			case "expired":
